@@ -2,6 +2,11 @@
 // virtual clock.  One case per line:
 //   NODE mode=<0..4> ndev=<n> src=<first address> q=<send frame buf size, before the *ndev of InitDevices> slots=<n> t0=<ms>
 //        [fp0=p,p,..] [fp1=..] [sf0=..] [sf1=..] [tx<i>=p,p,..] [hb=<0|1>] [cold=1] | op ; op ; ...
+//   further configuration keys: iso=p,p (application ISO request handler) ok=1 fwd=<bits> noconf=1 early=1 rx<i>=..
+//        conf=<hex inst1>,<hex inst2>,<hex manuf> / pconf=.. (SetConfigurationInformation / SetProgmemConfigurationInformation; "-" = empty string,
+//        "~" = null pointer)   prod=<hex model>,<hex sw>,<hex version>,<hex serial> (SetProductInformation, strings)   pprod=.. (the same by
+//        pointer to a tProductInformation)   copen=<ms>[,<failures>] (CANOpen() takes <ms> of virtual time and fails the first <failures> times;
+//        outside the model: oracle-only families)
 //   ops:  T <dt> | A <pattern of 0/1> | S <idev> <pri> <pgn> <src> <dst> <tp 0/1> <datahex> | F | C <idev>
 //         P (ParseMessages) | R <idhex> <len> <8 bytes hex>  (frame into the driver's receive queue)
 //         H <interval> <offset> [idev] (SetHeartbeatIntervalAndOffset) | Z <which> <v> (sizing / address setters after initialisation)
@@ -58,7 +63,16 @@ public:
     }
     return ok;
   }
-  bool CANOpen() override { return true; }
+  // copen=<ms>[,<failures>]: the driver's CANOpen() takes <ms> of (virtual) time and fails the first <failures> times.  Outside the model
+  // (whose CANOpen is instantaneous and succeeds): used by oracle-only families
+  unsigned copen_ms = 0; int copen_fails = 0; bool copen_cfg = false;
+  bool CANOpen() override {
+    verif_now_ms += copen_ms;
+    bool ok = true;
+    if (copen_fails > 0) { copen_fails--; ok = false; }
+    if (copen_cfg && g_log && g_out) { char t[48]; snprintf(t, 48, "note:canopen:%d ", ok ? 1 : 0); *g_out += t; }
+    return ok;
+  }
   int taken = 0;            // frames handed to the library since the counter was last cleared
   bool CANGetFrame(unsigned long &id, unsigned char &len, unsigned char *buf) override {
     if (rx.empty()) return false;
@@ -148,6 +162,7 @@ static void run_case(const std::string &line) {
     for (int i = 0; i < ndev; i++) { char k[16]; snprintf(k, 16, "tx%d", i); if (kv.count(k)) n->ExtendTransmitMessages(plist(kv[k])->data(), i); }
     relocate(n, ndev);
     for (int i = 0; i < ndev; i++) { char k[16]; snprintf(k, 16, "rx%d", i); if (kv.count(k)) n->ExtendReceiveMessages(plist(kv[k])->data(), i); }
+    if (kv.count("copen")) { n->copen_cfg = true; n->copen_ms = (unsigned)atoi(kv["copen"].c_str()); size_t c = kv["copen"].find(','); if (c != std::string::npos) n->copen_fails = atoi(kv["copen"].substr(c + 1).c_str()); }
     if (kv.count("ok") && kv["ok"] == "1") n->SetHandleOnlyKnownMessages(true);
     if (kv.count("iso")) { std::vector<unsigned long> *l = plist(kv["iso"]); g_iso_accept.assign(l->begin(), l->end() - 1); n->SetISORqstHandler(iso_handler); }
     if (kv.count("noconf") && kv["noconf"] == "1") n->SetProgmemConfigurationInformation(0, 0, 0);   // no configuration information at all
